@@ -251,9 +251,18 @@ def settings_stream(ctx, rng, count):
                 sc.SETTINGS[k2] = v2
             con, v = make('hist')
             setters[key](not saved[key])                  # flip the default AFTER construction
-            out_hist = cl.compile_constrained_system([con])
-            for k2, v2 in saved.items():
-                sc.SETTINGS[k2] = v2
+            try:
+                out_hist = cl.compile_constrained_system([con])
+            except Exception as e:  # noqa: BLE001
+                ctx.case({'stream': 'settings', 'alpha': alpha.tolist(), 'flipped': key})
+                ctx.count('stream:settings')
+                problems.append(('flipping the global default %s after constructing a %s constraint makes compiling it raise %s: %s'
+                                 % (key, 'primal' if primal else 'dual', type(e).__name__, str(e)[:80]),
+                                 {'alpha': alpha.tolist(), 'flipped': key}))
+                continue
+            finally:
+                for k2, v2 in saved.items():
+                    sc.SETTINGS[k2] = v2
             con2, v2_ = make('fresh')
             out_fresh = cl.compile_constrained_system([con2])
             sig = lambda o: (sorted(Counter((co.type, int(co.len)) for co in o[2]).items()), o[0].shape)  # noqa: E731
